@@ -427,6 +427,9 @@ func (cl *cluster) key() string {
 	if len(cl.boots) > 0 {
 		fmt.Fprintf(&b, "BOOT %s retries=%d\n", cl.bootDesc(), cl.nRetries)
 	}
+	if len(cl.cleanerStuck) > 0 {
+		fmt.Fprintf(&b, "STUCK %v\n", cl.cleanerStuck)
+	}
 	fmt.Fprintf(&b, "B %v sticky=%v task=%s adds=%v xferfail=%v/%d fiemapfail=%v/%d\n", bl, cl.stickyREST, cl.taskDesc(), pa, cl.failXfer, cl.cnt["transfers_failed"], cl.failFiemap, cl.cnt["fiemap_failures_injected"])
 	var ack []string
 	for id := 1; id <= cl.nWrites; id++ {
@@ -741,8 +744,11 @@ func (cl *cluster) enabled() []string {
 					out = append(out, fmt.Sprintf("Resize:grow:%d", m))
 				}
 			}
-		case "Tick", "TickF", "TickK":
+		case "Tick", "TickF", "TickK", "TickS":
 			if cl.nTicks >= 3 || (t != "Tick" && !faultsLeft(1)) {
+				continue
+			}
+			if t == "TickS" && cl.cnt["child_spawn_failures_injected"] > 0 {
 				continue
 			}
 			var ns []int
@@ -751,7 +757,7 @@ func (cl *cluster) enabled() []string {
 			}
 			sort.Ints(ns)
 			for _, n := range ns {
-				if _, ok := attached[n]; ok {
+				if _, ok := attached[n]; ok && !cl.cleanerStuck[n] {
 					out = append(out, fmt.Sprintf("%s:%d", t, n))
 				}
 			}
